@@ -14,7 +14,9 @@ Cmds == << <<"a","b","_","c">>, <<"d">>, <<"a","1","_","b","2","_","c">>,
 \* line templates: trailing blanks, CR inside, escapes, '#' / '>' that do not make a prompt, leading blank, empty
 LinesT == << <<"a","b","_","c">>, <<"a","_","_">>, <<>>, <<"E","a","!","b","E">>, <<"!","b","#","c">>,
              <<"_","a">>, <<"a","R","b">>, <<"%","1",">","2">>, <<"a","_","#">>, <<"c","c","c","c","c","c","c","c">>,
-             <<"E","E">>, <<"!","#","_">>, <<"d","E","_","E">> >>
+             <<"E","E">>, <<"!","#","_">>, <<"d","E","_","E">>,
+             \* lines whose TAIL looks like a prompt (only a line-aligned window keeps them from matching)
+             <<"%","a","b","#">>, <<"!","_","a",">">>, <<"%","%","e","#","_">>, <<"c","c","c","c","c","c","c","c","c","c","c">> >>
 Seps == << <<"R","N">>, <<"N">> >>
 Prompts == << <<"e","#","_">>, <<"e","#">>, <<"a","b","1",">">>, <<"d","2",">","_">> >>
 ReadSizes == <<1, 2, 3, 8, 64, 8192>>
@@ -22,7 +24,7 @@ ReadSizes == <<1, 2, 3, 8, 64, 8192>>
 RECURSIVE OutLines(_, _, _)
 OutLines(m, k, base) == IF k = 0 THEN <<>>
                         ELSE Pick(LinesT, m, base + 2*k) \o (IF k = 1 THEN <<>> ELSE Pick(Seps, m, base + 2*k + 1)) \o OutLines(m, k - 1, base)
-Out(m, j) == LET nl == Below(4, m, 100*j) IN
+Out(m, j) == LET nl == Below(6, m, 100*j) IN
              OutLines(m, nl, 100*j + 1) \o (IF Below(5, m, 100*j + 50) = 0 THEN <<"R","N">> ELSE <<>>)
 NoEsc(o) == SelectSeq(o, LAMBDA x : x # "E")
 
